@@ -23,6 +23,9 @@ def main():
     if hasattr(mmlgen, "ext_program"):
         for _ in range(n):
             fams.append(("ext", mmlgen.ext_program(rng)))
+    if hasattr(mmlgen, "pipe_program"):
+        for _ in range(n):
+            fams.append(("pipe", mmlgen.pipe_program(rng)))
     smp = mmlgen.samples()
     for s in smp:
         fams.append(("samples", s))
